@@ -295,7 +295,22 @@ def _enum_cases(chunk):
                    "probes": [[i / 4 * (Wf / 3), y] for i in range(13)]}
 
 
+# the other quadrants: cases are generated with coordinates from 0 upwards; a third of them are then translated as a
+# whole (fixes and probe points) to the left of and / or below the origin, by multiples of 0.5 (exact for lattices)
+SHIFTS = [(-64.0, 0.0), (0.0, -48.5), (-1000.5, -2000.0), (-7.5, -5.0), (-4096.0, 12.0)]
+
+
 def cases(chunk):
+    for i, c in enumerate(_cases(chunk)):
+        if i % 3 == 1 and not c.get("limit_x"):
+            dx, dy = SHIFTS[(i // 3) % len(SHIFTS)]
+            c["tracks"] = [[[p[0] + dx, p[1] + dy] + list(p[2:]) for p in t] for t in c["tracks"]]
+            c["probes"] = [[q[0] + dx, q[1] + dy] + list(q[2:]) for q in c.get("probes", [])]
+            c["shift"] = [dx, dy]
+        yield c
+
+
+def _cases(chunk):
     if chunk["kind"] == "enum":
         for c in _enum_cases(chunk):
             yield c
@@ -417,6 +432,8 @@ def run_case(case, ctx):
     FN = _fname(case)
     if FN != "v":
         cls.add("feature_name_resembling_uid")
+    if case.get("shift"):
+        cls.add("fixes_left_of_or_below_the_origin")
     if nobs >= 1000:
         cls.add("crowded_cells_hundreds_of_values")
         from collections import Counter
@@ -648,7 +665,7 @@ def classify(case, witness):
 # floors for the call-history workloads added in session 3 (a run in which they were silently skipped is inconclusive)
 _floors_base = floors
 _FLOORS_EXTRA = {'monitors': {'second_addCollection.same_bands': 300}, 'classes': {'median_requested_before_another_aggregate': 1000,
-                                                                                       'feature_name_resembling_uid': 1000, 'crowded_cells_hundreds_of_values': 20,
+                                                                                       'feature_name_resembling_uid': 1000, 'crowded_cells_hundreds_of_values': 20, 'fixes_left_of_or_below_the_origin': 500,
  'long_stop_more_than_1000_values_in_a_cell_with_nan': 4}}
 
 
